@@ -5,6 +5,9 @@ Tie:  H  `lean/XrsVerif/Model/Proximity.lean` (four-sweep model over Nat, the th
          about it) is run by the Lean driver on the same rasters as the real `proximity()`, `allocation()`,
          `direction()`; the squared distance, the identity of the recorded target (rasters carry unique
          values) and the bearing are compared cell by cell.
+      T3 `Gen.IL.proximityLine`, `Gen.IL.processNumpy`, `Gen.IL.calcDirection` (statement-by-statement translations of
+         `_process_proximity_line`, the jitted closure `_process._process_numpy` and `_calc_direction`) are proved to
+         refine the model (Proofs/ILProx*.lean) and validated against numba by the streams `il:<prog>` (il_corr.py).
       G  `Gen.calc_direction`, `Gen.euclidean_distance`, `Gen.manhattan_distance` (T1) and
          `Gen/ProximityFacts.lean` (T2: metric table, fallback, dispatch, process modes) are regenerated from
          /repo; the model's direction output *is* the generated `_calc_direction`.
@@ -658,6 +661,15 @@ def run(r, scale=1):
     timing["interp_streams"] = round(time.time() - t_phase, 1)
     timing["interp_calls"] = 3 * (n_int + len(int_gc) + len(small))
     shrink_failures(r, nproc)
+    # layer T3: the generated ILang programs against the numba-compiled functions (translator validation; the
+    # refinement theorems of Props/C06.lean are about these generated programs)
+    t_phase = time.time()
+    import il_corr
+    n_il = int({"quick": 600, "thorough": 6000}[r.tier] * scale)
+    il_corr.stream(r, ["proximityLine", "calcDirection"], n_il)
+    # the public functions re-jit the closure `_process_numpy` on every call (~1-2 s per case)
+    il_corr.stream(r, ["processNumpy"], int({"quick": 25, "thorough": 250}[r.tier] * scale))
+    timing["il_streams"] = round(time.time() - t_phase, 1)
     if thorough:
         r.exhaustive = ("every target layout on every grid with H,W<=3: 682 rasters on the compiled code (unit cells, "
                         "Euclidean, unbounded); x 5 cell sizes x 2 metrics x 9 max_distance values on the interpreted source")
@@ -781,6 +793,11 @@ def search(r):
 
 def replay(r, body):
     c = body["case"]
+    if isinstance(c, dict) and "prog" in c:          # a case of an il:<prog> stream
+        import il_corr
+        bad = il_corr.replay_case(c)
+        print("still disagrees with the generated program" if bad else "does not fail on the current tree")
+        return bad
     x = run_real([c], jit=True, nproc=1)[0]
     if x["status"] != "ok":
         print("still fails: raises", x["status"], x.get("msg"))
